@@ -1840,7 +1840,9 @@ fn main() {
     });
     rep.section("every Rect method equals the Aab method, from the rectangle side: float sums that round, unsigned integers",
         "the rectangle is the input; the box is (position, position + extent) computed by the harness in the element type, results go back through (min, max - min) in the element type: into_aab* / Aab::from(Rect) == that box; center, split_at_* (cut inside the converted box), contains_point, expanded_to_contain_point, expand_to_contain_point, contains_rect*, collides_with_rect*, union, expand_to_contain, intersection, intersect, collision_vector_with_rect* == the real Aab method on the converted value(s). f64 / f32: one-hot-axis rectangles, positions {-0.3, 0, 0.1, 1, 2^40 (2^20), 2^53 (2^24)} x extents {-0.1, 0, 0.75 ulp(1), 0.1, 0.2, 1, 2, 3}, points = every position, position+extent and their neighbouring floats; u8 (no Rect method ran on an unsigned type before): positions and extents next to 0 and 255, cases where the box side leaves the type (a panic under overflow checks) are skipped. non-trivial: every evaluation", true, false, |s| {
-        s.require_classes(&["f64:inexact", "f32:inexact", "u8:edges", "rect:position+extent-rounds", "rect:position+extent-exact", "rect,point", "rect,coordinate", "rect,rect", "box-side-panics:skipped"]);
+        s.require_classes(&["f64:inexact", "f32:inexact", "u8:edges", "rect:position+extent-rounds", "rect:position+extent-exact", "rect,point", "rect,coordinate", "rect,rect"]);
+        // the reference side overflows (and panics) only when the binary is built with overflow checks; the release-semantics configuration wraps instead
+        if cfg!(debug_assertions) { s.require_classes(&["box-side-panics:skipped"]); }
         rect_first_float::<D2, f64, 2>(s, "f64:inexact", th); rect_first_float::<D2, f32, 2>(s, "f32:inexact", th);
         rect_first_float::<D3, f64, 3>(s, "f64:inexact", th); rect_first_float::<D3, f32, 3>(s, "f32:inexact", th);
         rect_first_u8::<D2, 2>(s, "u8:edges"); rect_first_u8::<D3, 3>(s, "u8:edges");
